@@ -1,8 +1,43 @@
 //! Utility for UI XML generation.
 
 use super::XmlWriter;
+use quick_xml::escape;
+use quick_xml::events::attributes::Attribute;
 use quick_xml::events::{BytesStart, BytesText, Event};
+use quick_xml::name::QName;
+use std::borrow::Cow;
 use std::io;
+
+/// Creates text event for the given `content`.
+///
+/// In addition to the markup characters, CR is written as a character reference. XML parser
+/// would otherwise normalize it to LF.
+pub(super) fn make_text(content: &str) -> BytesText<'_> {
+    let escaped = escape::escape(content);
+    if escaped.contains('\r') {
+        BytesText::from_escaped(escaped.replace('\r', "&#13;"))
+    } else {
+        BytesText::from_escaped(escaped)
+    }
+}
+
+/// Creates attribute for the given `key` and `value`.
+///
+/// In addition to the markup characters, TAB, LF, and CR are written as character references.
+/// XML parser would otherwise normalize them to space.
+pub(super) fn make_attribute<'a>(key: &'a str, value: &str) -> Attribute<'a> {
+    let mut escaped = escape::escape(value).into_owned();
+    if escaped.contains(['\t', '\n', '\r']) {
+        escaped = escaped
+            .replace('\t', "&#9;")
+            .replace('\n', "&#10;")
+            .replace('\r', "&#13;");
+    }
+    Attribute {
+        key: QName(key.as_bytes()),
+        value: Cow::Owned(escaped.into_bytes()),
+    }
+}
 
 pub(super) fn write_tagged_str<W, S, T>(
     writer: &mut XmlWriter<W>,
@@ -16,7 +51,7 @@ where
 {
     let tag = BytesStart::new(tag.as_ref());
     writer.write_event(Event::Start(tag.borrow()))?;
-    writer.write_event(Event::Text(BytesText::new(content.as_ref())))?;
+    writer.write_event(Event::Text(make_text(content.as_ref())))?;
     writer.write_event(Event::End(tag.to_end()))?;
     Ok(())
 }
